@@ -90,7 +90,7 @@ Proof.
     { apply exec_redirs_len in E. simpl in E. lia. }
     pose proof (chunk_ext body (fs_T x) (fs_st x) HL) as HB.
     unfold finish40.
-    destruct (chunk_of runf (fs_T x) body (fs_st x)) as [s2|k s2| |]; simpl in *; auto;
+    destruct (chunk_of runf (fs_T x) body (fs_st x)) as [s2|k s2| |]; cbn [okx] in *; auto;
       match goal with |- okx _ (if ?b then _ else _) => destruct b end; simpl; auto;
       apply form_end_closes; auto.
   - unfold finish40.
@@ -106,7 +106,7 @@ Proof.
   { apply form_closes; auto.
     - intros h (d & p & H & _). destruct d; discriminate.
     - intros d H. destruct d; discriminate. }
-  destruct (form_of runf T [] None rs body s); simpl in *; auto;
+  destruct (form_of runf T [] None rs body s); cbn [okx] in *; auto;
     eapply closes_ext; eauto; intros h; destruct T; reflexivity.
 Qed.
 
@@ -146,12 +146,12 @@ Proof.
               unfold tget in H2. simpl in H2. inversion H2; subst p. simpl in H3.
               inversion H3; reflexivity.
             - intros d H. destruct d as [|[|d]]; try discriminate. eexists; reflexivity. }
-          destruct (form_of runf _ _ (Some j) rs body s); simpl in *; auto;
+          destruct (form_of runf _ _ (Some j) rs body s); cbn [okx] in *; auto;
             destruct H as [H G]; split; auto; intros h; rewrite H, Hh; reflexivity.
         - assert (H := form_ext (a :: b :: T') rs body s ltac:(simpl; lia)).
-          destruct (form_of runf (a :: b :: T') [] None rs body s); simpl in *; auto;
+          destruct (form_of runf (a :: b :: T') [] None rs body s); cbn [okx] in *; auto;
             apply closes_none; auto. }
-      clearbody r. destruct r as [s2|k s2| |]; simpl in *; auto; destruct acc; simpl; auto.
+      clearbody r. destruct r as [s2|k s2| |]; cbn [okx] in *; auto; destruct acc; simpl; auto.
     + (* a stage with an output pipe *)
       destruct (new_pipe_effect s) as (Ej & HO1 & HG1 & HR & HW).
       set (j := fst (new_pipe s)) in *. set (s1' := snd (new_pipe s)) in *.
@@ -179,17 +179,25 @@ Proof.
       assert (Step : forall acc' s2, closes (heldb Tst Fst) s1 s2 ->
                  okx (closes (cin inp) s) (stages_of runf (a :: b :: T') (st2 :: rest') (Some j) acc' (join 1 s2))).
       { intros acc' s2 [H2 G2].
-        assert (HI := IH (Some j) acc' (join 1 s2) (or_introl ltac:(discriminate))).
-        destruct (stages_of runf (a :: b :: T') (st2 :: rest') (Some j) acc' (join 1 s2)) as [s3|k s3| |];
-          simpl in *; auto; destruct HI as [H3 G3]; (split;
-          [ intros h; rewrite H3, open_join, H2, Hh; unfold s1; rewrite open_spawn, HO1;
-            destruct (handle_eqb (HPipeR j) h) eqn:ER; simpl;
-            [ apply handle_eqb_eq in ER; subst h; rewrite HR; destruct (cin inp (HPipeR j)); reflexivity
-            | destruct (handle_eqb (HPipeW j) h) eqn:EW; simpl;
-              [ apply handle_eqb_eq in EW; subst h; rewrite HW, orb_true_r; destruct (cin inp (HPipeW j)); reflexivity
-              | rewrite orb_false_r; reflexivity ] ]
-          | rewrite G3, gor_join, G2; unfold s1; rewrite gor_spawn, HG1; lia ]). }
-      clearbody r. destruct r as [s2|k s2| |]; simpl in *; auto.
+        assert (Hne2 : st2 :: rest' <> [] \/ Some j = None) by (left; discriminate).
+        assert (HI := IH (Some j) acc' (join 1 s2) Hne2).
+        remember (stages_of runf (a :: b :: T') (st2 :: rest') (Some j) acc' (join 1 s2)) as r3 eqn:Er3.
+        clear Er3 IH HF.
+        assert (Fin : forall s3, closes (cin (Some j)) (join 1 s2) s3 -> closes (cin inp) s s3).
+        { intros s3 [H3 G3]. split.
+          - intros h. rewrite H3, open_join, H2, Hh. unfold s1. rewrite open_spawn, HO1.
+            unfold cin at 1.
+            destruct (handle_eqb (HPipeR j) h) eqn:ER.
+            + apply handle_eqb_eq in ER; subst h. rewrite HR. destruct (cin inp (HPipeR j)); reflexivity.
+            + destruct (handle_eqb (HPipeW j) h) eqn:EW.
+              * apply handle_eqb_eq in EW; subst h. rewrite HW, orb_true_r.
+                destruct (cin inp (HPipeW j)); reflexivity.
+              * rewrite orb_false_r. reflexivity.
+          - rewrite G3, gor_join, G2. unfold s1. rewrite gor_spawn, HG1. lia. }
+        destruct r3 as [s3|k s3| |]; cbn [okx] in *; auto. }
+      clearbody r. clear IH.
+      destruct r as [s2|k s2| |]; cbn [bind after_branch fst snd okx] in HF |- *;
+        try exact Logic.I; apply Step; exact HF.
 Qed.
 
 Lemma capture_ext T body s : 2 <= length T -> okx (ext s) (capture_of runf T body s).
@@ -206,12 +214,13 @@ Proof.
     destruct (close_handle_closes (close_handle s2 (HPipeW j)) (HPipeR j) eq_refl) as [HC2 GC2].
     split.
     - intros h. rewrite open_join, HC2, HC1, H2, open_spawn, HO1.
-      destruct (handle_eqb (HPipeR j) h) eqn:ER; simpl.
-      + apply handle_eqb_eq in ER; subst h. auto.
-      + destruct (handle_eqb (HPipeW j) h) eqn:EW; simpl; auto.
-        apply handle_eqb_eq in EW; subst h. auto.
+      destruct (handle_eqb (HPipeR j) h) eqn:ER; destruct (handle_eqb (HPipeW j) h) eqn:EW;
+        cbn [orb]; try reflexivity.
+      + apply handle_eqb_eq in ER; subst h. symmetry; exact HR.
+      + apply handle_eqb_eq in ER; subst h. symmetry; exact HR.
+      + apply handle_eqb_eq in EW; subst h. symmetry; exact HW.
     - rewrite gor_join, GC2, GC1, G2, gor_spawn, HG1. lia. }
-  destruct (chunk_of runf T' body (spawn 2 s1')) as [s2|k s2| |]; simpl in *; auto.
+  destruct (chunk_of runf T' body (spawn 2 s1')) as [s2|k s2| |]; cbn [okx] in *; auto.
 Qed.
 
 Lemma each_iter_ext T body : 2 <= length T -> forall n s0 s,
@@ -221,7 +230,7 @@ Proof.
   intros HT. induction n as [|n IH]; intros s0 s HO HG; simpl.
   - split; [intros h; rewrite open_join; auto|rewrite gor_join, HG; lia].
   - pose proof (chunk_ext body T s HT) as HB.
-    destruct (chunk_of runf T body s) as [s2|k s2| |]; simpl in *; auto.
+    destruct (chunk_of runf T body s) as [s2|k s2| |]; cbn [okx] in *; auto.
     + destruct HB as [H2 G2]. apply IH; [intros h; rewrite H2; auto|lia].
     + destruct HB as [H2 G2].
       split; [intros h; rewrite open_join, H2; auto|rewrite gor_join, G2, HG; lia].
@@ -229,11 +238,13 @@ Qed.
 
 Lemma each_ext T body s : 2 <= length T -> okx (ext s) (each_of runf T body s).
 Proof.
-  intros HT. unfold each_of. destruct (tget T 0) as [pi|]; simpl; auto.
+  intros HT. unfold each_of. destruct (tget T 0) as [pi|]; [|exact Logic.I].
   pose proof (read_all_ext (spawn 3 s) (p_file pi)) as HR.
-  destruct (read_all (spawn 3 s) (p_file pi)) as [[b s2]|k s2| |]; simpl; auto;
-    destruct HR as [H2 G2]; apply each_iter_ext; auto;
-    try (intros h; rewrite H2, open_spawn; reflexivity); rewrite G2, gor_spawn; lia.
+  destruct (read_all (spawn 3 s) (p_file pi)) as [[b s2]|k s2| |];
+    [ | |exact Logic.I|exact Logic.I];
+    destruct HR as [H2 G2];
+    (apply each_iter_ext;
+     [auto|intros h; rewrite H2, open_spawn; reflexivity|rewrite G2, gor_spawn; lia]).
 Qed.
 
 Lemma peach_ext T body : 2 <= length T -> forall n acc s,
@@ -245,11 +256,12 @@ Proof.
     assert (Step : forall acc' s2, ext (spawn 1 s) s2 ->
               okx (ext s) (peach_iter runf T body n acc' (join 1 s2))).
     { intros acc' s2 [H2 G2]. specialize (IH acc' (join 1 s2)).
-      destruct (peach_iter runf T body n acc' (join 1 s2)); simpl in *; auto;
+      destruct (peach_iter runf T body n acc' (join 1 s2)); cbn [okx] in *; auto;
         destruct IH as [H3 G3];
         (split; [intros h; rewrite H3, open_join, H2, open_spawn; reflexivity
                 |rewrite G3, gor_join, G2, gor_spawn; lia]). }
-    destruct (chunk_of runf T body (spawn 1 s)) as [s2|k s2| |]; simpl in *; auto.
+    destruct (chunk_of runf T body (spawn 1 s)) as [s2|k s2| |];
+      cbn [bind after_branch fst snd okx] in HB |- *; try exact Logic.I; apply Step; exact HB.
 Qed.
 
 Lemma par_ext T : 2 <= length T -> forall fs acc s, okx (ext s) (par_of runf T fs acc s).
@@ -260,17 +272,18 @@ Proof.
     assert (Step : forall acc' s2, ext (spawn 1 s) s2 ->
               okx (ext s) (par_of runf T fs acc' (join 1 s2))).
     { intros acc' s2 [H2 G2]. specialize (IH acc' (join 1 s2)).
-      destruct (par_of runf T fs acc' (join 1 s2)); simpl in *; auto;
+      destruct (par_of runf T fs acc' (join 1 s2)); cbn [okx] in *; auto;
         destruct IH as [H3 G3];
         (split; [intros h; rewrite H3, open_join, H2, open_spawn; reflexivity
                 |rewrite G3, gor_join, G2, gor_spawn; lia]). }
-    destruct (chunk_of runf T body (spawn 1 s)) as [s2|k s2| |]; simpl in *; auto.
+    destruct (chunk_of runf T body (spawn 1 s)) as [s2|k s2| |];
+      cbn [bind after_branch fst snd okx] in HB |- *; try exact Logic.I; apply Step; exact HB.
 Qed.
 
 Lemma try_ext T body s : 2 <= length T -> okx (ext s) (try_of runf T body s).
 Proof.
   intros HT. unfold try_of. pose proof (chunk_ext body T s HT) as HB.
-  destruct (chunk_of runf T body s) as [s2|k s2| |]; simpl in *; auto.
+  destruct (chunk_of runf T body s) as [s2|k s2| |]; cbn [okx] in *; auto.
   destruct (s_cancel s2); simpl; auto.
 Qed.
 
@@ -286,7 +299,7 @@ Proof.
   - destruct (tget T 1) as [p|]; simpl; auto. apply put_values_ext.
   - apply form_ext; auto.
   - pose proof (stages_closes T HT stages None None s (or_intror eq_refl)) as H.
-    destruct (stages_of runf T stages None None s); simpl in *; auto; apply closes_none; auto.
+    destruct (stages_of runf T stages None None s); cbn [okx] in *; auto; apply closes_none; auto.
   - apply capture_ext; auto.
   - apply each_ext; auto.
   - apply peach_ext. rewrite length_list_upd; auto.
